@@ -285,6 +285,8 @@ func init() {
 				if mode != "" {
 					return e.realRound(x.t, mode), nil
 				}
+			case OpaqueF:
+				return x, nil
 			}
 			e.unsupported("math.%s on %T", name, args[0])
 			return nil, nil
